@@ -247,14 +247,26 @@ func genRun(r *rand.Rand, sandbox bool, first bool) *Case {
 	case k < 24:
 		// operands: up to two that are not files, then stdin, a file that is never written in this run (existing or
 		// not), the directory, /dev/null -- or nothing more (the standard input is the main input then)
+		// (not the standard input as main input after a child that does not read its input was given it: how much
+		// of it is left is a race)
+		racy := false
+		for _, a := range c.Acts {
+			if (a.Op == "system" || a.Op == "getline_cmd") && (a.Name == "empty" || a.Name == "blank" || a.Name == "showf1") &&
+				!c.Cfg.NE && len(c.Cfg.Stdin) > 0 {
+				racy = true
+			}
+		}
 		nskip := 0
-		if r.Intn(3) == 0 {
+		if r.Intn(3) == 0 && !racy {
 			nskip = 1 + r.Intn(2)
 		}
 		for j := 0; j < nskip; j++ {
 			c.Acts = append(c.Acts, Act{Op: "operand", Name: pick(r, "", "v=1"), Cls: pick(r, "lit", "lit", "computed")})
 		}
 		cand := []string{"-", "d1"}
+		if racy {
+			cand = []string{"d1"}
+		}
 		for _, f := range FileNames {
 			if dir[f] == "in" {
 				cand = append(cand, f)
